@@ -30,6 +30,9 @@ var BoundaryNumbers = []int{1, 15, 16, 2047, 2048, 262143, 262144, 33554431, 335
 func addChildAndEnum(f *File) (child T, enum T) {
 	pkg := f.P.GetPackage()
 	f.Enum("E", "E_ZERO", 0, "E_ONE", 1, "E_TWO", 2, "E_NEG", -1, "E_BIG", 1000, "E_MIN", -2147483648, "E_MAX", 2147483647, "E_ALIAS", 1)
+	lf := f.Msg("Leaf")
+	lf.F("t", 1, S(String))
+	lf.F("n", 2, S(Sint64))
 	c := f.Msg("Child")
 	child = M(pkg + ".Child")
 	enum = E(pkg + ".E")
@@ -41,7 +44,7 @@ func addChildAndEnum(f *File) (child T, enum T) {
 	c.F("b", 6, S(Bytes))
 	o := c.Oneof("o")
 	c.O(o, "os", 7, S(String))
-	c.O(o, "oc", 8, child)
+	c.O(o, "oc", 8, M(pkg+".Leaf"))
 	c.F("d", 9, S(Double))
 	return
 }
